@@ -98,7 +98,7 @@ def main():
             "guard": "KALIGN_VERIF",
             "enable": "vf/build.py compiles /repo/lib/src/*.c (the source_files of lib/CMakeLists.txt) and /repo/src/run_kalign.c directly with "
                       "-DKALIGN_VERIF and links /verif/rt/verif_rt.c, which implements the hooks declared in /repo/lib/src/kalign_verif.h",
-            "baseline_off_cmd": "rm -rf /repo/_build && cmake -G Ninja -S /repo -B /repo/_build && cmake --build /repo/_build && ctest --test-dir /repo/_build -j8 --timeout 900",
+            "baseline_off_cmd": "rm -rf /repo/_build && cmake -G Ninja -S /repo -B /repo/_build && cmake --build /repo/_build && ctest --test-dir /repo/_build -j8 --timeout 900 </dev/null",
             "source_commits": hook_commits(),
             "add_only": True,
         },
